@@ -1,13 +1,12 @@
 (* Refcount.v -- executable transcription of the bookkeeping that decides which files, descriptors and handle-table
    slots the library holds (property C17).  Definitions only.
 
-   Part 1  ADF file table, src/adf/ADF_internals.c:
-             ADFI_open_file (5450-5589)  ADFI_get_file_index_from_name (4882-4919)  ADFI_link_add (1418-1450)
-             the link step of ADFI_chase_link (1511-1541)   ADFI_close_file (1749-1801)
-           and src/adf/ADF_interface.c: ADF_Database_Open (758-980, the READ_ONLY / OLD arms and Open_Error),
-             ADF_Database_Close (577-594).
-   Part 2  cgio handle table, src/cgns_io.c: cgio_open_file (744-845), cgio_close_file (849-877), get_cgnsio (143-156).
-   Part 3  MLL file table, src/cgnslib.c: cg_open (494-665), cg_close (810-860), cgi_get_file (cgns_internals.c 11098).
+   Part 1  ADF file table, src/adf/ADF_internals.c (line numbers of /repo at fff8c32):
+             ADFI_open_file (5477)  ADFI_get_file_index_from_name (4909)  ADFI_link_add (1418)
+             the link step of ADFI_chase_link (1469) with its one-entry cache   ADFI_close_file (1775)
+           and src/adf/ADF_interface.c: ADF_Database_Open (the READ_ONLY / OLD arms and Open_Error), ADF_Database_Close.
+   Part 2  cgio handle table, src/cgns_io.c: cgio_open_file (745), cgio_close_file (850), get_cgnsio.
+   Part 3  MLL file table, src/cgnslib.c: cg_open (496) / cgi_open_body (521), cg_close (841), cgi_get_file.
 
    What is modelled: reference counts (in_use), link lists (links[] / nlinks), slot allocation and reuse, table growth and
    release, file names (as numbers), the one-entry link cache of ADFI_chase_link, and a LEDGER = the multiset of descriptors the ADF layer holds open (one entry, the
@@ -20,8 +19,12 @@
    nlinks and links[] are read from the LIVE table at every iteration, as in the C.  Running out of fuel is the
    distinguished outcome None (the C: unbounded recursion).
 
-   Two variants: Old = the code as it is; Cur = the repair proposed in notes/C17.md (the loop over links[] moved
-   inside "if (index == 0)").  Error codes: 0 stands for NO_ERROR (-1 in ADF.h); the others are the ADF.h numbers. *)
+   Two variants of ADFI_close_file.  Cur = THE CODE AS IT IS NOW (/repo since 909ac4d: the loop over links[] sits inside
+   "if (index == 0)").  Old = the code before 909ac4d (links[] closed at EVERY close of the linking file), kept so that the
+   theorems of Properties_C17.v that end in _old_refuted keep documenting, machine-checked, why it was changed; the check
+   runs the Cur variant against the library.  Likewise MCur = cg_open since def473d (a failure behind cgio_open_file
+   releases the cgio file and the table entry), MOld = cg_open before.
+   Error codes: 0 stands for NO_ERROR (-1 in ADF.h); the others are the ADF.h numbers. *)
 From Coq Require Import Arith List Bool Lia.
 From CgnsV Require Import Fuel ListX.
 Import ListNotations.
@@ -349,8 +352,8 @@ Definition cg_open (v : mvariant) (m : mll) (oc : ooutcome) : mll * option nat :
     let fn := length (files m1) + foffset m1 in
     match oc, v with
     | OSuccess, _ => (m1, Some fn)
-    | _, MOld => (m1, None)                                           (* return CG_ERROR; nothing undone *)
-    | _, MCur => (mll_release m1 (length (files m)) h, None)             (* proposed repair: undo as cg_close does *)
+    | _, MOld => (m1, None)                                           (* before def473d: return CG_ERROR; nothing undone *)
+    | _, MCur => (mll_release m1 (length (files m)) h, None)             (* since def473d: released as cg_close does *)
     end
   end.
 
